@@ -65,6 +65,12 @@ def match_known(v: Violation, known: list[dict]) -> dict | None:
 # ---------------------------------------------------------------------------
 
 
+def _stable(stats: dict) -> dict:
+    """Counters that are functions of the case alone (reach probes that depend on memory addresses or on
+    process-global leftovers of earlier cases are reported but kept out of the determinism digest)."""
+    return {k: v for k, v in stats.items() if not (k.startswith("probe:") or k.startswith("volatile:"))}
+
+
 def _execute_one(pid: str, seed: int, tier: str):
     from .props import PROPERTIES
 
@@ -89,7 +95,7 @@ def _worker(args):
                 "viols": [v.to_json() for v in viols],
                 "stats": stats,
                 "keys": keys,
-                "digest": core.digest([case, [v.to_json() for v in viols], stats]),
+                "digest": core.digest([case, [v.to_json() for v in viols], _stable(stats)]),
             }
             if viols or idx in want_samples:
                 rec["case"] = case
@@ -270,7 +276,7 @@ def check(pid: str, tier: str, runs: int | None = None) -> int:
             continue
         try:
             case, viols, stats, _ = _execute_one(pid, rec["seed"], tier)
-            d = core.digest([case, [v.to_json() for v in viols], stats])
+            d = core.digest([case, [v.to_json() for v in viols], _stable(stats)])
         except Exception:  # noqa: BLE001
             d = "error"
         if d != rec["digest"]:
@@ -386,3 +392,73 @@ def check(pid: str, tier: str, runs: int | None = None) -> int:
         if exit_code == EXIT_OK:
             return EXIT_HARNESS
     return exit_code
+
+
+# ---------------------------------------------------------------------------
+# witnesses for known findings (developer command; output is committed by hand)
+# ---------------------------------------------------------------------------
+
+
+def make_witnesses(only: str | None = None, max_seeds: int = 20000) -> int:
+    """Search a concrete minimised case for every known finding and store it under witnesses/."""
+    from .props import PROPERTIES
+
+    core.assert_repo_import()
+    with open(KNOWN_FILE) as fh:
+        data = json.load(fh)
+    wdir = os.path.join(core.VERIF_ROOT, "witnesses")
+    os.makedirs(wdir, exist_ok=True)
+    missing = 0
+    for e in data["known"]:
+        if only and e["id"] != only:
+            continue
+        prop = PROPERTIES[e["property"]]
+        found = None
+        for idx in range(max_seeds):
+            seed = core.run_seed(4242, e["property"] + ":witness", idx)
+            case = prop.generate(seed, "quick")
+            try:
+                viols, _, _ = prop.execute(case)
+            except Exception:  # noqa: BLE001
+                continue
+            hit = next((v for v in viols if match_known(v, [e])), None)
+            if hit is not None:
+                found = (case, hit)
+                break
+        if found is None:
+            print("no witness found for", e["id"])
+            missing += 1
+            continue
+        case, hit = found
+        if hasattr(prop, "refine"):
+            case = prop.refine(case, hit)
+
+        def matches(c):
+            try:
+                vs, _, _ = prop.execute(c)
+            except Exception:  # noqa: BLE001
+                return None
+            return next((v for v in vs if match_known(v, [e])), None)
+
+        tries = 0
+        improved = True
+        while improved and tries < 300:
+            improved = False
+            for cand in prop.shrink_candidates(case):
+                tries += 1
+                if tries >= 300:
+                    break
+                if matches(cand) is not None:
+                    case = cand
+                    improved = True
+                    break
+        v = matches(case) or hit
+        rel = os.path.join("witnesses", e["id"] + ".json")
+        with open(os.path.join(core.VERIF_ROOT, rel), "w") as fh:
+            json.dump({"property": e["property"], "case": case, "violation": v.to_json(), "finding": e["id"]}, fh, indent=1, sort_keys=True, ensure_ascii=False)
+        e["witness"] = rel
+        print("witness for %s: %s" % (e["id"], rel))
+    with open(KNOWN_FILE, "w") as fh:
+        json.dump(data, fh, indent=2, ensure_ascii=False)
+        fh.write("\n")
+    return 0 if not missing else 2
